@@ -51,6 +51,7 @@ LIB_PRED = {
     "root_p": "(factory root)",
 }
 LIB_FUNC = ["is_list_of_p", "all_p", "comp_p", "lazy_p"]
+SELF_PRED_SRC = '__import__("predicate").is_none_p'  # default of a `self` parameter: a predicate object, no new name bound anywhere
 BASES = ["is_str_p", "is_int_p", "is_str_p", "is_int_p", "is_float_p", "is_none_p"]
 
 
@@ -361,6 +362,9 @@ def gen_config(rng, n_calls=14, shape=None):
     # frames that also bind a non-predicate local called `self` (a method, or any function with such a parameter):
     # the resolution only ever skips a *predicate* bound to that name, never the frame
     cfg["selfs"] = [k for k in range(depth + 1) if rng.random() < 0.3]
+    # ... and frames whose `self` IS a predicate (a method of a Predicate subclass, a bound predicate passed along): only that one
+    # binding is passed over, the other locals of the frame are searched like everywhere else
+    cfg["selfp"] = [k for k in cfg["selfs"] if rng.random() < 0.5]
     # "wrapS": a wrapper of a scope-level predicate defined in a deeper frame (a *related* binding below the scope)
     callable_defs = [d for d in cfg["defs"] if d["pred"]]
     for i, fr in enumerate(chain, 1):
@@ -540,7 +544,7 @@ def build(cfg, tag, instrument=False):
     else:
         scope_defs, body_ind = cfg["defs"], "    "
         acc = {d["name"]: d["name"] for d in cfg["defs"]}
-        lines.append("def _scope(_vals, _out, self=None):" if 0 in cfg.get("selfs", ()) else "def _scope(_vals, _out):")
+        lines.append(f"def _scope(_vals, _out, self={SELF_PRED_SRC if 0 in cfg.get('selfp', ()) else 'None'}):" if 0 in cfg.get("selfs", ()) else "def _scope(_vals, _out):")
     callable_names = [d["name"] for d in cfg["defs"] if d["pred"]]
     acc = {n: a for n, a in acc.items() if n in callable_names or True}
 
@@ -582,7 +586,7 @@ def build(cfg, tag, instrument=False):
                 acc3 = {n: f"_env{j}[{n!r}]" for n in usable}
             local_bind.setdefault(j, {}).update({d["name"]: d["uid"] for d in fr["locals"]})
             fn_name[j] = f"_f{j}"
-            out.append(f"{ind}def _f{j}({', '.join(params + (['self=None'] if j in cfg.get('selfs', ()) else []))}):")
+            out.append(f"{ind}def _f{j}({', '.join(params + ([('self=' + (SELF_PRED_SRC if j in cfg.get('selfp', ()) else 'None'))] if j in cfg.get('selfs', ()) else []))}):")
             # a wrapper defined in a deeper frame refers to the scope-level predicate through the access path
             for d in fr["locals"]:
                 if not names_in(d["ast"]) <= set(acc3):  # the wrapped predicate is not reachable here: bind a plain predicate instead
@@ -623,6 +627,10 @@ def build(cfg, tag, instrument=False):
         names = list(c.co_varnames) + [n for n in c.co_cellvars if n not in c.co_varnames] + list(c.co_freevars)
         out = []
         for n in names:
+            if n == "self":  # a parameter of this very frame (never a closure variable): a predicate only when the frame says so
+                if i in cfg.get("selfp", ()):
+                    out.append((n, "lib:is_none_p"))
+                continue
             for k in range(i, -1, -1):
                 if k in local_bind and n in local_bind[k]:
                     out.append((n, local_bind[k][n]))
